@@ -14,9 +14,15 @@ def I(n, d, tier="quick"): return H("c11_init::" + n, desc=d, tier=tier, timeout
 HARNESSES = [
     I("c11_init_none_fail", "init: nothing fails"), I("c11_init_stop_fails", "init: stopping the process fails"), I("c11_init_auxv_fails", "init: completing auxv fails"),
     I("c11_init_threads_fail", "init: thread enumeration fails"), I("c11_init_mappings_fail", "init: mapping enumeration fails", "thorough"), I("c11_init_all_fail", "init: all four fail"),
-    K("c11_dump_all_best_effort_fail", "dump: every best-effort step fails"),
-    K("c11_dump_lsb_falls_back", "dump: lsb-release unreadable, os-release used: no error"),
-    K("c11_dump_cpuinfo_fails", "dump: cpuinfo copy fails", "thorough"), K("c11_dump_lsb_and_os_release_fail", "dump: both release files unreadable", "thorough"),
-    K("c11_dump_dso_fails", "dump: linker debug data unreadable", "thorough"), K("c11_dump_handles_fail", "dump: listing open files fails", "thorough"),
-    K("c11_dump_init_error", "dump: an init step reported an error", "thorough"), K("c11_dump_maps_limits_fail", "dump: maps and limits copies fail", "thorough"),
+    H("c19_dump::g_dump_all_best_effort_fail", desc="dump: every best-effort step fails", loops={"MINIDUMP_EXCEPTION": 20, "alloc_from_array": 8}, timeout=2400, est_gb=8, mem_gb=24),
+    H("c19_dump::g_dump_lsb_falls_back", desc="dump: lsb-release unreadable, os-release used: no error", loops={"MINIDUMP_EXCEPTION": 20, "alloc_from_array": 8}, timeout=2400, est_gb=8, mem_gb=24),
+    H("c19_dump::g_dump_handles_fail", desc="dump: listing open files fails", loops={"MINIDUMP_EXCEPTION": 20, "alloc_from_array": 8}, timeout=2400, est_gb=8, mem_gb=24),
+    H("c19_dump::g_dump_cpuinfo_fails", desc="dump: cpuinfo copy fails", loops={"MINIDUMP_EXCEPTION": 20, "alloc_from_array": 8}, timeout=2400, est_gb=8, mem_gb=24, tier="thorough"),
+    H("c19_dump::g_dump_lsb_and_os_release_fail", desc="dump: both release files unreadable", loops={"MINIDUMP_EXCEPTION": 20, "alloc_from_array": 8}, timeout=2400, est_gb=8, mem_gb=24, tier="thorough"),
+    H("c19_dump::g_dump_dso_fails", desc="dump: linker debug data unreadable", loops={"MINIDUMP_EXCEPTION": 20, "alloc_from_array": 8}, timeout=2400, est_gb=8, mem_gb=24, tier="thorough"),
+    H("c19_dump::g_dump_init_error", desc="dump: an init step reported an error", loops={"MINIDUMP_EXCEPTION": 20, "alloc_from_array": 8}, timeout=2400, est_gb=8, mem_gb=24, tier="thorough"),
+    H("c19_dump::g_dump_maps_limits_fail", desc="dump: maps and limits copies fail", loops={"MINIDUMP_EXCEPTION": 20, "alloc_from_array": 8}, timeout=2400, est_gb=8, mem_gb=24, tier="thorough"),
+    H("c19_dump::g_dump_status_cmdline_fail", desc="dump: status and cmdline copies fail", loops={"MINIDUMP_EXCEPTION": 20, "alloc_from_array": 8}, timeout=2400, est_gb=8, mem_gb=24, tier="thorough"),
+    H("c19_dump::g_dump_environ_auxv_fail", desc="dump: environ and auxv copies fail", loops={"MINIDUMP_EXCEPTION": 20, "alloc_from_array": 8}, timeout=2400, est_gb=8, mem_gb=24, tier="thorough"),
+    K("c11_dump_all_best_effort_fail", "byte-level: every best-effort step fails", "thorough"),
 ]
